@@ -7,6 +7,7 @@ cutting loops at invariants, and emitting named obligations.
 import ast
 import z3
 
+from .core import spec as _spec
 from .core import (Sym, Arr, Arr2, LArr, SList, PyList, FlatList, ObjRec, Ref, ClassVal,
                    Opaque, State, OutsideSubset, Raised, fresh, uid, I, B,
                    concrete_int, concrete_bool, kind_of, sort_of,
@@ -90,6 +91,12 @@ class View:
 
     def raw(self, path):
         parts = path.split('.')
+        if parts[0] not in self.st.env:
+            # a contract names a local that the code (no longer) defines at
+            # this point: the obligation cannot be generated -> reported as
+            # not discharged (in_subset), never a crash of the checker
+            raise OutsideSubset('the contract refers to `{}`, which the code '
+                                'does not define here'.format(parts[0]))
         v = self.st.env[parts[0]]
         for p in parts[1:]:
             v = self.st.getfield(v, p)
@@ -102,7 +109,7 @@ class View:
         try:
             self.raw(path)
             return True
-        except (KeyError, Raised):
+        except (KeyError, Raised, OutsideSubset):
             return False
 
     def int(self, path):
@@ -683,11 +690,11 @@ class Executor:
             else:
                 names.add(m)
         if spec.prepare is not None:
-            spec.prepare(self, st)
+            _spec(spec.prepare, self, st)
         # 1. invariant holds on entry
         st.env[kname] = Sym(z3.IntVal(0), 'int')
         if spec.inv is not None:
-            for (nm, f) in spec.inv(View(self, st)):
+            for (nm, f) in _spec(spec.inv, View(self, st)):
                 cx.oblige(st, pre + 'init/' + nm, f, kind='loop_init')
         # 2. arbitrary iteration
         h = st
@@ -703,7 +710,7 @@ class Executor:
         if is_for:
             h.assume(kk <= dom.n)
         if spec.inv is not None:
-            for (nm, f) in spec.inv(View(self, h)):
+            for (nm, f) in _spec(spec.inv, View(self, h)):
                 h.assume(f)
         outs = []
         # body
@@ -730,14 +737,15 @@ class Executor:
             if spec.step is not None and start is not None and \
                     r.status in ('normal', 'continue', 'break'):
                 self.cx.line = node.lineno
-                for (nm, f) in spec.step(View(self, start), View(self, r)):
+                for (nm, f) in _spec(spec.step, View(self, start),
+                                     View(self, r)):
                     cx.oblige(r, pre + 'step/' + nm, f, kind='loop_step')
             if r.status in ('normal', 'continue'):
                 r.status = 'normal'
                 r.env[kname] = Sym(kk + 1, 'int')
                 if spec.inv is not None:
                     self.cx.line = node.lineno
-                    for (nm, f) in spec.inv(View(self, r)):
+                    for (nm, f) in _spec(spec.inv, View(self, r)):
                         cx.oblige(r, pre + 'preserve/' + nm, f,
                                   kind='loop_preserve')
             elif r.status == 'break':
@@ -758,7 +766,7 @@ class Executor:
                 if nm not in x.env and nm != kname and is_for:
                     x.env[nm] = LoopLocal(nm, kk >= 1)
             if spec.exit_assume is not None:
-                for f in spec.exit_assume(View(self, x)):
+                for f in _spec(spec.exit_assume, View(self, x)):
                     x.assume(f)
             if self.feasible(x):
                 outs.append(x)
